@@ -9,9 +9,10 @@
 -/
 import Honeycomb.Gen.LinkCores
 import Honeycomb.Model.Ops
+import Honeycomb.Props.C01
 
 namespace HC.GenTie
-open HC
+open HC HC.C01
 variable {X : Type}
 
 /-- operand of a generated instruction -/
@@ -65,6 +66,17 @@ theorem C01_gen_twoUnlinkCore (l : Nat) : interpCore (X := X) l 0 0 Gen.twoUnlin
 
 /-- **tie of `three_unlink_core`** -/
 theorem C01_gen_threeUnlinkCore (l : Nat) : interpCore (X := X) l 0 0 Gen.threeUnlinkCore = iUnlinkCore 3 l := rfl
+
+/-- **C01 stated on the translated code**: every successful run of the translated `one_link_core`,
+    `two_link_core`, `one_unlink_core`, `two_unlink_core` on a well-formed 2-map, with in-use arguments
+    (distinct for the 2-link), ends in a well-formed map -/
+theorem C01_gen_cores_preserve_WF (l r : Nat) :
+    Safe (fun m : Map X => InUse m l ∧ InUse m r) (interpCore (X := X) l r 0 Gen.oneLinkCore) ∧
+    Safe (fun m : Map X => InUse m l ∧ InUse m r ∧ l ≠ r) (interpCore (X := X) l r 0 Gen.twoLinkCore) ∧
+    Safe (fun m : Map X => InUse m l) (interpCore (X := X) l 0 0 Gen.oneUnlinkCore) ∧
+    Safe (fun m : Map X => InUse m l) (interpCore (X := X) l 0 0 Gen.twoUnlinkCore) := by
+  rw [C01_gen_oneLinkCore, C01_gen_twoLinkCore, C01_gen_oneUnlinkCore, C01_gen_twoUnlinkCore]
+  exact ⟨safe_oneLinkCore l r, safe_twoLinkCore l r, safe_oneUnlinkCore l, safe_twoUnlinkCore l⟩
 
 /-- the interpreter is not vacuous: a list it does not understand is a panic, not a silent success -/
 example (l r : Nat) : interpCore (X := X) l r 0 [(7, [])] = Prog.panic := rfl
